@@ -240,6 +240,27 @@ def family(cov, values):
     return dict(cov=covf, se=se, t=t, p=p, corr=corr, pair_t=pt, pair_p=pp)
 
 
+def sandwich_cancellation(hessian, bhhh):
+    """Conditioning of the robust sandwich V B V (V = pinv(-H)), exact: the largest ratio, over the entries, of
+    sum |v_ia b_ab v_bj| to |sum v_ia b_ab v_bj|.  1 = no cancellation; inf = an entry that is an exact zero
+    made of non-zero terms (in floating point it is rounding noise, relative to nothing)."""
+    v = pinv(neg(fmat(hessian)))
+    b = fmat(bhhh)
+    k = len(v)
+    worst = F(1)
+    for i in range(k):
+        for j in range(k):
+            terms = [v[i][p] * b[p][q] * v[q][j] for p in range(k) for q in range(k)]
+            s = sum((abs(t) for t in terms), F(0))
+            r = abs(sum(terms, F(0)))
+            if s == 0:
+                continue
+            if r == 0:
+                return float('inf')
+            worst = max(worst, s / r)
+    return float(worst)
+
+
 def outcome_stats(values, hessian, bhhh, bootstrap):
     """The three families from the raw matrices.  hessian / bhhh: K x K floats; bootstrap: B x K or None."""
     a = neg(fmat(hessian))
